@@ -920,7 +920,7 @@ class Engine:
         self.pos = 0
         self.trace = []
         self.solver = z3.Solver()
-        self.solver.set("timeout", 120000)
+        self.solver.set("timeout", int(_os.environ.get("VSYM_QUERY_TIMEOUT_MS", "120000")))
         self.inputs = {}
         self.input_meta = {}
         self.active = True
